@@ -180,6 +180,9 @@ func init() {
 			{PageSize: 1024, MaxSize: 96 * 1024, Prealloc: true}, {PageSize: 4096, MaxSize: 256 * 1024, InitMetaArea: 2},
 		}
 		for i := 0; i < n; i++ {
+			if rep.outOfTime() {
+				break
+			}
 			hseed := r.Int63()
 			hr := rand.New(rand.NewSource(hseed))
 			cfg := cfgs[hr.Intn(len(cfgs))]
@@ -197,6 +200,9 @@ func init() {
 		// part 2: short histories on files that are not full, half of the transactions end in Rollback / Close
 		// (pages allocated, freed and allocated again inside a transaction that does not commit)
 		for i := 0; i < 4*n; i++ {
+			if rep.outOfTime() {
+				break
+			}
 			hseed := r.Int63()
 			hr := rand.New(rand.NewSource(hseed))
 			cfg := cfgs[hr.Intn(len(cfgs))]
